@@ -307,6 +307,7 @@ mutant("c03-scan-carry-offset-drops-cond", "C03", SCF, "        carry_outputs_st
 mutant("c03-scan-seq-outputs-skip-missing", "C03", SCF, "        outputs_start_with_seq = 1 + num_consts + num_carry + len(sequence_states)", "        outputs_start_with_seq = 1 + num_consts + num_carry", expect="R-C03e")
 mutant("c03-scan-const-slice-shifted", "C03", SCF, "        const_body_outs = body_outputs[1 : 1 + num_consts]", "        const_body_outs = body_outputs[: num_consts]", expect="R-C03e", count=2)
 benign("c03-benign-scan-offset-reassociated", "C03", SCF, "        outputs_start_with_seq = 1 + num_consts + num_carry + len(sequence_states)", "        outputs_start_with_seq = len(sequence_states) + num_carry + (num_consts + 1)")
+mutant("c03-while-output-groups-reordered", "C03", WLF, "        output_names.extend(ctx.fresh_name(\"while_const_out\") for _ in body_const_vals)\n        output_names.extend(\n            ctx.fresh_name(\"while_cond_const_out\") for _ in cond_const_vals\n        )", "        output_names.extend(\n            ctx.fresh_name(\"while_cond_const_out\") for _ in cond_const_vals\n        )\n        output_names.extend(ctx.fresh_name(\"while_const_out\") for _ in body_const_vals)", expect="R-C03e")
 benign("c03-benign-while-slice-inline-offset", "C03", WLF, "        const_outputs = loop_outputs[\n            output_offset : output_offset + len(body_const_vals)\n        ]", "        const_outputs = loop_outputs[\n            int(batched_condition) : int(batched_condition) + len(body_const_vals)\n        ]")
 mutant("c03-hard-coded-value-name", "C03", "jax2onnx/plugins/jax/lax/tanh.py", "        result = ctx.builder.Tanh(x_val, _outputs=[desired_name])", '        result = ctx.builder.Tanh(x_val, _outputs=["tanh_out"])', expect="tanh_out")
 mutant("c03-literal-helper-value-in-loop", "C03", OPT, "                    if false_value is None:\n", "                    if True:\n", expect="false_const")
